@@ -482,7 +482,24 @@ pub fn prefilter_lists(rg: &mut StdRng, which: usize) -> Pats {
     let mut word = |rg: &mut StdRng, lo: usize, hi: usize| -> Vec<u8> {
         (0..rg.gen_range(lo..=hi)).map(|_| letters[rg.gen_range(0..letters.len())]).collect()
     };
-    match which % 7 {
+    match which % 8 {
+        // packed-friendly list (>= 4 first bytes, min length >= 2) with NESTED patterns that all
+        // stay in the automaton: a long pattern FIRST, then a proper prefix of it and an infix of
+        // it (an occurrence of the long one contains occurrences of the others that end earlier)
+        7 => {
+            let mut v: Pats = (0..rg.gen_range(5..=9)).map(|i| { let mut w = vec![letters[(i * 3 + 2) % letters.len()]]; w.extend(word(rg, 3, 6)); w }).collect();
+            let n = v.len();
+            for k in 0..2 {
+                let at = (k * 3) % n;
+                let base = v[at].clone();
+                let pre = base[..rg.gen_range(2..base.len())].to_vec();
+                let a = rg.gen_range(1..base.len() - 2);
+                let inf = base[a..rg.gen_range(a + 2..=base.len() - 1).max(a + 2)].to_vec();
+                v.insert(at + 1, pre);
+                v.push(inf);
+            }
+            v
+        }
         // packed-friendly list with patterns that leftmost-first prunes (an earlier pattern is
         // a proper prefix) and duplicates, placed BEFORE other patterns
         6 => {
@@ -1091,11 +1108,15 @@ pub fn run(out_prefix: &str, shards: usize, family: &str, seed: u64, scale: usiz
                     });
                 }
             }
-            for i in 0..(30 * scale) {
-                // half of the contexts are built to carry a prefilter (every variant, incl.
-                // packed/Teddy which needs spans longer than a vector)
+            // contexts 2k: random lists; contexts 2k+1: built to carry a prefilter - every variant
+            // of prefilter_lists under every match kind (packed/Teddy exists for the leftmost
+            // kinds only and needs spans longer than a vector; shorter spans go to Rabin-Karp)
+            let npre = 8 * f.mks.len() * scale;
+            for i in 0..(2 * npre.max(15 * scale)) {
+                if i % 2 == 0 && i / 2 >= 15 * scale { continue; }
+                if i % 2 == 1 && i / 2 >= npre { continue; }
                 let pats = if i % 2 == 0 { gen::random_pats(&mut rg, 6, 6) } else { prefilter_lists(&mut rg, i / 2) };
-                let mk = f.mks[rg.gen_range(0..f.mks.len())];
+                let mk = if i % 2 == 1 { f.mks[(i / 2 / 8) % f.mks.len()] } else { f.mks[rg.gen_range(0..f.mks.len())] };
                 let mut c = Ctx::new(&pats, mk, REPRS_ALL[i % REPRS_ALL.len()]);
                 c.ci = i % 2 == 0 && rg.gen_range(0..3) == 0;
                 c.pre = i % 2 == 1 || rg.gen_bool(0.7);
@@ -1111,6 +1132,35 @@ pub fn run(out_prefix: &str, shards: usize, family: &str, seed: u64, scale: usiz
                                 sp = (rg.gen_range(0..8), h.len() - rg.gen_range(4..12));
                             }
                             span_triple(r, s, &c, h, sp, &mut rg);
+                            // a pattern that contains another one straddles the span end such that
+                            // the inner one still fits inside the span (the searcher must report
+                            // the inner one and must not be distracted by the outer one)
+                            if sp.0 < sp.1 && sp.1 < h.len() {
+                                let mut parents: Vec<(usize, usize, usize)> = vec![]; // (p, offset of q in p, len q)
+                                for (pi, p) in pats.iter().enumerate() {
+                                    for q in pats.iter() {
+                                        if q.is_empty() || q.len() >= p.len() { continue; }
+                                        for j in 0..(p.len() - q.len()) {
+                                            if &p[j..j + q.len()] == &q[..] { parents.push((pi, j, q.len())); }
+                                        }
+                                    }
+                                }
+                                if !parents.is_empty() {
+                                    let (pi, j, ql) = parents[rg.gen_range(0..parents.len())];
+                                    let p = &pats[pi];
+                                    let filler = *[b'_', b'~', 0x01].iter().find(|b| !pats.iter().any(|q| q.contains(b))).unwrap_or(&b'_');
+                                    // kk bytes of p lie inside the span: j + ql <= kk < len p
+                                    let kk = rg.gen_range(j + ql..p.len());
+                                    for fill_all in [true, false] {
+                                        let mut h2 = if fill_all { vec![filler; h.len()] } else { h.clone() };
+                                        for (x, &b) in p.iter().enumerate() {
+                                            let pos = sp.1 as isize - kk as isize + x as isize;
+                                            if pos >= 0 && (pos as usize) < h2.len() { h2[pos as usize] = b; }
+                                        }
+                                        span_triple(r, s, &c, &h2, sp, &mut rg);
+                                    }
+                                }
+                            }
                             // the same with a pattern straddling the span end (and one straddling
                             // the start) in the ORIGINAL haystack and nothing else inside
                             if sp.0 <= sp.1 && !pats.is_empty() {
